@@ -1,7 +1,7 @@
 (* C15 -- results are reproducible and do not depend on the order of the inputs.  Statements only; proofs in Sema/OrderProofs.v
    and Sema/Lookup.v.  Reproducibility itself is a property of the models by construction: they are functions of their input. *)
 From Coq Require Import List Bool Arith Permutation.
-From SliceV Require Import Sema.Lookup Sema.Validate Sema.WellFormed Sema.OrderProofs.
+From SliceV Require Import Sema.Lookup Sema.Validate Sema.WellFormed Sema.OrderProofs Sema.Lints Driver.Files Driver.FilesOrder Driver.Main Driver.OrderMisc.
 Import ListNotations.
 
 (* the verdict of the rule catalogue (C04's model: accepted iff well-formed) is the same for every order in which the
@@ -12,3 +12,29 @@ Proof. exact acceptance_order_independent. Qed.
    to every binding of a type reference or link (C03's model) *)
 Theorem C15_lookup_order_independent : forall V (t t' : table V) k, NoDup (map fst t) -> Permutation t t' -> get V t k = get V t' k.
 Proof. exact get_perm. Qed.
+
+(* the file set: listing the source paths and the reference paths in another order changes neither which files (by identity) are
+   compiled, nor which of them are sources, nor how many there are -- given that whether a file can be read does not depend on
+   the spelling of its path *)
+Theorem C15_file_set_order_independent : forall fuel fs,
+  (forall p q id, canon_of fs p = Some id -> canon_of fs q = Some id -> readable fs p = readable fs q) ->
+  forall sources sources' references references', Permutation sources sources' -> Permutation references references' ->
+  (forall id, In id (compiled_ids (resolve_files fuel fs sources references)) <-> In id (compiled_ids (resolve_files fuel fs sources' references'))) /\
+  (forall id, is_source_in (resolve_files fuel fs sources references) id <-> is_source_in (resolve_files fuel fs sources' references') id) /\
+  length (compiled_ids (resolve_files fuel fs sources references)) = length (compiled_ids (resolve_files fuel fs sources' references')).
+Proof. exact file_set_order_independent. Qed.
+(* the same path defects are reported whatever the order, hence the same decision whether anything is parsed *)
+Theorem C15_path_defects_order_independent : forall fuel fs sources sources' references references', Permutation sources sources' -> Permutation references references' ->
+  forall d, is_error_fdiag d = true ->
+    (In d (snd (find_slice_files fuel fs sources true)) \/ In d (snd (find_slice_files fuel fs references false))) <->
+    (In d (snd (find_slice_files fuel fs sources' true)) \/ In d (snd (find_slice_files fuel fs references' false))).
+Proof. exact parses_order_independent. Qed.
+(* warnings and errors are counted, generators are started and the exit status is decided the same way for every order in which
+   the diagnostics were reported; each diagnostic keeps its level *)
+Theorem C15_totals_order_independent : forall c ds ds', Permutation ds ds' -> totals c ds = totals c ds'.
+Proof. exact totals_order_independent. Qed.
+Theorem C15_levels_order_independent : forall c ds ds', Permutation ds ds' -> Permutation (map (level_of c) ds) (map (level_of c) ds').
+Proof. exact levels_order_independent. Qed.
+Theorem C15_outcome_order_independent : forall c ds', Permutation (rc_diags c) ds' ->
+  generation_runs (with_diags c ds') = generation_runs c /\ gen_results (with_diags c ds') = gen_results c /\ exit_status (with_diags c ds') = exit_status c.
+Proof. exact outcome_order_independent. Qed.
